@@ -610,11 +610,14 @@ def check_problem(case):
     """Problem.solve_bruteforce (qubovert.problems parent class, exercised through NumberPartitioning, which has no
     slack variables): the result is convert_solution applied to a minimiser of P.to_qubo() -- with
     all_solutions=True to every minimiser exactly once and to nothing else. The minimisers of to_qubo() are
-    enumerated here with peval. Non-trivial: >= 2 numbers."""
+    enumerated here with peval. Instances whose QUBO does not contain every problem variable are skipped.
+    Non-trivial: >= 2 numbers."""
     q = qv()
     P = q.problems.NumberPartitioning(list(case["S"]))
     Q = dict(P.to_qubo())
     vs = sorted(_labels(Q.keys()))
+    if vs != list(range(P.num_binary_variables)):
+        return Skip("a problem variable does not occur in to_qubo(): how it is completed is not part of C09")
     best, expected = _expected(Q, vs, False, lambda x: True)
     want = [P.convert_solution(dict(a)) for a in expected]
     got = P.solve_bruteforce(all_solutions=case["all"])
